@@ -22,6 +22,13 @@ theorem event_once_iff_subscribed (e : Eng) (pre : List EMsg) (n : Nat) (k : Key
   rw [forward_count e _ n k (esRun_nodup e [] pre List.nodup_nil)]
   simp [hd, subscribed_iff_last_sub e pre k hd]
 
+/-- events broadcast in one order reach each subscriber in that order, each at most once: what a
+    subscriber is forwarded is a sublist of the stream's events (the stream's inbox order is the
+    broadcast order of each goroutine: C01). -/
+theorem forwards_in_stream_order (e : Eng) (ms : List EMsg) (k : Key) :
+    (forwardedTo k (esRun e [] ms).2).Sublist (eventsOf ms) :=
+  forwards_in_order e [] ms k List.nodup_nil
+
 /-- the subscriber set never holds a key twice. -/
 theorem subs_nodup (e : Eng) (ms : List EMsg) : (esRun e [] ms).1.Nodup :=
   esRun_nodup e [] ms List.nodup_nil
